@@ -83,7 +83,7 @@ Section Stream.
         destruct CM as (Dd & Dk & Dh). cbn [update c_data c_key c_hash c_size].
         rewrite Dd, concat_app. cbn [concat]. rewrite app_nil_r, <- app_assoc. auto.
       + rewrite T. split; [assumption|].
-        destruct D as (ko & FK & V). cbn [find_key] in FK. inversion FK; subst ko. clear FK.
+        destruct D as (_ & ko & FK & V). cbn [find_key] in FK. inversion FK; subst ko. clear FK.
         destruct ctx as [c|], run as [[p u]|]; try contradiction.
         * destruct CM as (Dd & Dk & Dh).
           apply (validate_accepts_mac_subsequent H) in V as (ad & P & M & c1 & Ec & D1 & K1 & H1); [|assumption].
